@@ -8,7 +8,7 @@ Driver ops for C20 (executable `drv_algo`; this module exports `Qib.Vqe.dispatch
   → `{raised: null | "<ExceptionClass>", value: [re,im], spec: [re,im], herm: bool}`
   (`value` = the code's `(ψ̄ᵀ P) ψ`, `spec` = the double sum `Σᵢⱼ conj ψᵢ Pᵢⱼ ψⱼ`, `herm` = `Pᴴ = P` exactly)
 * `vqe.qucc` `{L, exc: "s"|"d"|"sd"|…, params: [[re,im],…]}`
-  → `{raised: "<ExceptionClass>"}` or `{raised: null, terms: [{T, G: T − Tᴴ, skew: Gᴴ = −G, commT: [N,T] = 0,
+  → `{raised: "<ExceptionClass>", where: "ctor"|"as_matrix"}` or `{raised: null, none: true}` (no branch: `None`) or `{raised: null, terms: [{T, G: T − Tᴴ, skew: Gᴴ = −G, commT: [N,T] = 0,
   commG: [N,G] = 0}, …]}` – one entry per exponential factor, in the order of the product.
 -/
 open Lean
@@ -57,9 +57,10 @@ def opQucc (j : Json) : Except String Json := do
   | .error e => return Json.mkObj [("raised", .str e), ("where", .str "ctor")]
   | .ok exc =>
     match quccTerms L exc params with
+    | .error "NoneReturned" => return Json.mkObj [("raised", Json.null), ("none", .bool true)]
     | .error e => return Json.mkObj [("raised", .str e), ("where", .str "as_matrix")]
     | .ok Ts =>
-      return Json.mkObj [("raised", Json.null), ("nparams", Json.num (JsonNumber.fromNat (numParameters L exc))),
+      return Json.mkObj [("raised", Json.null), ("none", .bool false), ("nparams", Json.num (JsonNumber.fromNat (numParameters L exc))),
         ("terms", Json.arr (Ts.map (termJson L)).toArray)]
 
 def dispatch : Dispatch := fun op j =>
